@@ -311,6 +311,41 @@ fn build_prog(t: &mut Tape) -> (Prog, Vec<&'static str>) {
                 push(&mut p, ";", Kind::Op, false, d0 + 1);
                 push(&mut p, "end", Kind::Keyword, true, d0);
             }
+            4 if t.chance(1, 3) => {
+                // word operators after the closing quotes of a second literal
+                let lit2 = mlstr::gen_literal(t);
+                classes.push(lit2.class);
+                push(&mut p, "N", Kind::Ident, true, d0);
+                push(&mut p, ":=", Kind::Op, false, d0);
+                push(&mut p, &lit.text, Kind::TextMulti, false, d0);
+                push(&mut p, ".", Kind::Op, false, d0);
+                push(&mut p, "Len", Kind::Ident, false, d0);
+                push(&mut p, "+", Kind::Op, false, d0);
+                push(&mut p, &lit2.text, Kind::TextMulti, false, d0);
+                push(&mut p, ".", Kind::Op, false, d0);
+                push(&mut p, "Lenn", Kind::Ident, false, d0);
+                for _ in 0..1 + t.below(3) {
+                    let w = *t.pick(&["div", "mod", "and", "or", "xor", "shl"]);
+                    push(&mut p, w, Kind::Keyword, false, d0);
+                    push(&mut p, *t.pick(&["Cc", "Ddd", "E"]), Kind::Ident, false, d0);
+                }
+            }
+            6 if t.chance(1, 3) => {
+                // an anonymous routine as argument of a call on the literal
+                push(&mut p, &lit.text, Kind::TextMulti, true, d0);
+                push(&mut p, ".", Kind::Op, false, d0);
+                push(&mut p, "Apply", Kind::Ident, false, d0);
+                push(&mut p, "(", Kind::Op, false, d0);
+                push(&mut p, "procedure", Kind::Keyword, false, d0);
+                push(&mut p, "begin", Kind::Keyword, true, d0);
+                push(&mut p, "Bar", Kind::Ident, true, d0 + 1);
+                push(&mut p, "(", Kind::Op, false, d0 + 1);
+                push(&mut p, "Arg1", Kind::Ident, false, d0 + 1);
+                push(&mut p, ")", Kind::Op, false, d0 + 1);
+                push(&mut p, ";", Kind::Op, false, d0 + 1);
+                push(&mut p, "end", Kind::Keyword, true, d0);
+                push(&mut p, ")", Kind::Op, false, d0);
+            }
             3 if t.chance(1, 3) => {
                 // the statement starts with the literal
                 push(&mut p, &lit.text, Kind::TextMulti, true, d0);
